@@ -1,6 +1,6 @@
 (* Property C19: every individual is evaluated when due and counted once per evaluation. *)
 From Coq Require Import List Bool Arith.
-From Bingo Require Import Model.EvalPhase Proofs.EvalPhaseProofs.
+From Bingo Require Import Model.EvalPhase Proofs.EvalPhaseProofs Proofs.EvalPartialProofs.
 Import ListNotations.
 
 Section C19.
@@ -53,6 +53,31 @@ Theorem C19_archipelago_total :
   forall cs, Forall (fun c => count c = ghost c) cs -> archipelago_count cs = archipelago_ghost cs.
 Proof. exact archipelago_count_is_ghost. Qed.
 Print Assumptions C19_archipelago_total.
+
+(* 4. a fitness function that may raise ([faulty]: an arbitrary predicate of the genome): a phase that RETURNS returns
+      exactly what theorems 1 and 2 describe and no due individual was faulty - so nobody that was due is left
+      unevaluated and nothing is left uncounted; the phase fails to return exactly when some due individual is
+      faulty, serially and with worker processes alike *)
+Section C19p.
+Variables (G F : Type) (fit : G -> F) (opt : G -> G) (k : G -> nat) (faulty : G -> bool).
+Theorem C19_phase_that_returns_left_nobody_unevaluated :
+  forall red perm fresh c pop,
+  (forall r, serial_eval_p G F fit opt k faulty red c pop = Some r ->
+     r = serial_eval G F fit opt k red c pop /\ existsb (due_faulty G F faulty red) pop = false) /\
+  (forall r, multiprocess_eval_p G F fit opt k faulty red perm fresh c pop = Some r ->
+     r = multiprocess_eval G F fit opt k red perm fresh c pop /\ existsb (due_faulty G F faulty red) pop = false) /\
+  (serial_eval_p G F fit opt k faulty red c pop = None -> existsb (due_faulty G F faulty red) pop = true) /\
+  (serial_eval_p G F fit opt k faulty red c pop = None <->
+   multiprocess_eval_p G F fit opt k faulty red perm fresh c pop = None).
+Proof.
+  intros red perm fresh c pop. split; [|split; [|split]].
+  - intros r. apply serial_p_some.
+  - intros r. apply multi_p_some.
+  - apply serial_p_none.
+  - apply raise_agreement.
+Qed.
+End C19p.
+Print Assumptions C19_phase_that_returns_left_nobody_unevaluated.
 
 Example C19_example :
   let pop := [mkIndiv nat nat 0 5 None false; mkIndiv nat nat 1 7 (Some 70) true; mkIndiv nat nat 2 9 None false] in
